@@ -5,6 +5,7 @@ depends on which spelling a maintainer prefers.
   with contextlib.suppress(E): BODY                   ->  try: BODY except E: pass
   @_guard def f(…): BODY   where the private decorator ->  def f(…): PRE; BODY [; POST on every normal way out]
       only runs PRE, calls f with its arguments unchanged [, runs POST] and returns the result
+  NAME = "literal" at module level (bound once)        ->  the literal, wherever NAME is read (tuples / frozensets in loops and `in` tests)
   a, b = x.f, y.g                                      ->  a = x.f; b = y.g
   try: x = D[k]  except KeyError: A  else: B           ->  if k in D: x = D[k]; B  else: A      (also return D[k], D[k].append(v))
   with self._h(a…): BODY   where _h is a private       ->  PRE; BODY; POST      (try: BODY finally: POST when _h has one)
@@ -594,8 +595,151 @@ GLOBAL_HELPERS = {}  # name -> (param index, message index): require-helpers see
 #                        one module and imported into a sibling is recognised in the sibling too)
 
 
+GLOBAL_CONSTANTS = {}  # name -> literal: private / ALL-CAPS module-level names bound once to a literal (filled by the loader's prescan)
+
+
+def _module_constants(tree):
+    """names bound exactly once, at module level, to a literal that cannot change: a string / number / None, a tuple or frozenset of
+    such, a format string.  (`_NAME_KEY = ".NAME"`, `_TRACKED = frozenset({".NAME", "EDIF.identifier"})`)"""
+    stores = {}
+    for n in ast.walk(tree):
+        if isinstance(n, ast.Name) and isinstance(n.ctx, (ast.Store, ast.Del)):
+            stores[n.id] = stores.get(n.id, 0) + 1
+        elif isinstance(n, (ast.FunctionDef, ast.AsyncFunctionDef, ast.ClassDef)):
+            stores[n.name] = stores.get(n.name, 0) + 1
+        elif isinstance(n, (ast.Import, ast.ImportFrom)):
+            for a in n.names:
+                nm = (a.asname or a.name).split(".")[0]
+                stores[nm] = stores.get(nm, 0) + 1
+        elif isinstance(n, ast.arg):
+            stores[n.arg] = stores.get(n.arg, 0) + 1
+        elif isinstance(n, ast.Global):
+            for nm in n.names:
+                stores[nm] = stores.get(nm, 0) + 2
+
+    def literal(v):
+        if isinstance(v, ast.Constant) and (v.value is None or isinstance(v.value, (str, int, float, bytes, bool))):
+            return True
+        if isinstance(v, ast.Tuple):
+            return bool(v.elts) and all(literal(x) and not isinstance(x, ast.Tuple) for x in v.elts)
+        if isinstance(v, ast.Call) and isinstance(v.func, ast.Name) and v.func.id == "frozenset" and len(v.args) == 1 and not v.keywords \
+                and isinstance(v.args[0], (ast.Set, ast.Tuple, ast.List)) and v.args[0].elts and all(isinstance(x, ast.Constant) for x in v.args[0].elts):
+            return True
+        return False
+    from .core import copy_tree
+    out = {}
+    for _round in range(3):
+        grew = False
+        for st in tree.body:
+            if isinstance(st, ast.Assign) and len(st.targets) == 1 and isinstance(st.targets[0], ast.Name) and stores.get(st.targets[0].id) == 1 \
+                    and st.targets[0].id not in out and (st.targets[0].id.startswith("_") or st.targets[0].id.isupper()):
+                v = st.value
+                if any(isinstance(x, ast.Name) and x.id in out and isinstance(out[x.id], (ast.Constant, ast.Tuple)) for x in ast.walk(v)):
+                    # a constant spelled with other constants: _KEYS = (_NAME_KEY, _ID_KEY); _KEY_SET = frozenset(_KEYS)
+                    class R(ast.NodeTransformer):
+                        def visit_Name(self, n):
+                            if isinstance(n.ctx, ast.Load) and n.id in out and isinstance(out[n.id], (ast.Constant, ast.Tuple)):
+                                return ast.copy_location(copy_tree(out[n.id]), n)
+                            return n
+                    v = R().visit(copy_tree(v))
+                if literal(v):
+                    out[st.targets[0].id] = v
+                    grew = True
+        if not grew:
+            break
+    return out
+
+
+def _propagate_constants(tree, consts):
+    """a read of such a name is a read of the literal (a tuple only where it is iterated or tested for membership, a frozenset only where
+    it is tested for membership — there it reads as the set literal)"""
+    from .core import copy_tree
+    changed = [False]
+
+    class P(ast.NodeTransformer):
+        def __init__(self):
+            self.shadow = [set()]
+
+        def _scope(self, n):
+            local = {a.arg for a in n.args.posonlyargs + n.args.args + n.args.kwonlyargs} | {a.arg for a in (n.args.vararg, n.args.kwarg) if a is not None}
+            for x in ast.walk(n):
+                if isinstance(x, ast.Name) and isinstance(x.ctx, (ast.Store, ast.Del)):
+                    local.add(x.id)
+            self.shadow.append(self.shadow[-1] | local)
+            self.generic_visit(n)
+            self.shadow.pop()
+            return n
+
+        visit_FunctionDef = _scope
+        visit_AsyncFunctionDef = _scope
+        visit_Lambda = _scope
+
+        def _sub(self, n, as_member=False, as_iter=False):
+            if isinstance(n, ast.Name) and isinstance(n.ctx, ast.Load) and n.id in consts and n.id not in self.shadow[-1]:
+                v = consts[n.id]
+                if isinstance(v, ast.Constant):
+                    changed[0] = True
+                    return ast.copy_location(copy_tree(v), n)
+                if isinstance(v, ast.Tuple) and (as_member or as_iter):
+                    changed[0] = True
+                    return ast.copy_location(copy_tree(v), n)
+                if isinstance(v, ast.Call) and as_member:
+                    changed[0] = True
+                    return ast.copy_location(ast.Set(elts=[copy_tree(x) for x in v.args[0].elts]), n)
+            return None
+
+        def visit_Name(self, n):
+            r = self._sub(n)
+            return r if r is not None else n
+
+        def visit_Compare(self, n):
+            self.generic_visit(n)
+            for i, (op, c) in enumerate(zip(n.ops, n.comparators)):
+                if isinstance(op, (ast.In, ast.NotIn)):
+                    r = self._sub(c, as_member=True)
+                    if r is not None:
+                        n.comparators[i] = r
+            return n
+
+        def visit_For(self, n):
+            r = self._sub(n.iter, as_iter=True)
+            if r is not None:
+                n.iter = r
+            self.generic_visit(n)
+            return n
+
+        def visit_comprehension(self, n):
+            r = self._sub(n.iter, as_iter=True)
+            if r is not None:
+                n.iter = r
+            self.generic_visit(n)
+            return n
+
+        def visit_Assign(self, n):
+            # the defining statement itself stays
+            if len(n.targets) == 1 and isinstance(n.targets[0], ast.Name) and n.targets[0].id in consts and len(self.shadow) == 1:
+                return n
+            self.generic_visit(n)
+            return n
+    # (module-level statements keep the names: tables of constants such as `PORT_DIRECTIONS = {INPUT, OUTPUT, INOUT}` are read by name)
+    p_ = P()
+    for st in tree.body:
+        if isinstance(st, (ast.FunctionDef, ast.AsyncFunctionDef, ast.ClassDef)):
+            p_.visit(st)
+    if changed[0]:
+        ast.fix_missing_locations(tree)
+    return changed[0]
+
+
 def normalise(tree):
     nodes = list(ast.walk(tree))
+    consts = _module_constants(tree)
+    imported_names = {a.asname or a.name: a.name for n in tree.body if isinstance(n, ast.ImportFrom) for a in n.names}
+    for alias, orig in imported_names.items():
+        if orig in GLOBAL_CONSTANTS and alias not in consts:
+            consts[alias] = GLOBAL_CONSTANTS[orig]
+    if consts and _propagate_constants(tree, consts):
+        nodes = list(ast.walk(tree))
     if any(x.__class__.__name__ == "Match" for x in nodes) and _desugar_match(tree):
         nodes = list(ast.walk(tree))
     if any(isinstance(x, ast.For) and isinstance(x.iter, ast.Name) for x in nodes) and _inline_single_use_iterators(tree):
